@@ -572,7 +572,7 @@ fn canon_chan_lines(lines: &[String]) -> Vec<String> {
 		match line_kind(l) {
 			"chan" => {
 				let id = l.split(' ').nth(1).unwrap_or("").to_string();
-				let dropped = lines.iter().filter(|m| line_kind(m) == "chan_in" && m.split(' ').nth(1) == Some(&id[..]) && m.ends_with("state=RemoteAnnounced")).count() as u64;
+				let dropped = lines.iter().filter(|m| line_kind(m) == "chan_in" && m.split(' ').nth(1) == Some(&id[..]) && m.contains(" state=RemoteAnnounced ")).count() as u64;
 				let outbound = tok(l, "outbound=").as_deref() == Some("true");
 				let toks: Vec<String> = l.split(' ').map(|t| {
 					if let Some(v) = t.strip_prefix("update_status=") { format!("update_status={}", if v.starts_with("DisabledStaged") { "Enabled" } else if v.starts_with("EnabledStaged") { "Disabled" } else { v }) }
@@ -594,7 +594,7 @@ fn canon_chan_lines(lines: &[String]) -> Vec<String> {
 				}
 				out.push(s);
 			},
-			"chan_in" => { if !l.ends_with("state=RemoteAnnounced") { out.push(l.clone()); } },
+			"chan_in" => { if !l.contains(" state=RemoteAnnounced ") { out.push(l.clone()); } },
 			"chan_out" => out.push(l.replace(" state=RemoteRemoved ", " state=Committed ")),
 			_ => out.push(l.clone()),
 		}
@@ -635,8 +635,36 @@ fn forget_texts(lines: &[String]) -> BTreeMap<String, (String, bool, bool)> {
 	}
 	out
 }
+/// the per-HTLC optional vectors (Generated/ChanSideVecs.lean, Props/C12 side_vectors_reattach): for every channel of the dump taken
+/// BEFORE the write and every vector, `sidevec <tlv> <kind=value,…>` (the elements of the list the vector belongs to, in order, with
+/// the `sv<tlv>=` value the hook prints); the implementation's answer is the same list as the manager READ BACK dumps it.
+fn emit_sidevecs(ctx: &mut Ctx, before: &[String], after: &[String]) {
+	const ROWS: [(u32, &str); 12] = [(15, "chan_out"), (35, "chan_out"), (39, "chan_out"), (61, "chan_out"), (67, "chan_out"), (79, "chan_out"), (55, "chan_in"), (37, "chan_hold"), (41, "chan_hold"), (57, "chan_hold"), (69, "chan_hold"), (77, "chan_hold")];
+	let elems = |lines: &[String], id: &str, kind: &str, tlv: u32| -> Vec<String> {
+		lines.iter().filter(|m| line_kind(m) == kind && m.split(' ').nth(1) == Some(id)).map(|m| {
+			let k = if kind == "chan_hold" { m.split(' ').nth(3).unwrap_or("?").to_string() } else { m.split(' ').find_map(|t| t.strip_prefix("state=")).unwrap_or("?").to_string() };
+			let key = format!("sv{}=", tlv);
+			format!("{}={}", k, m.split(' ').find_map(|t| t.strip_prefix(&key[..])).unwrap_or("-"))
+		}).collect()
+	};
+	let ids: Vec<String> = before.iter().filter(|l| line_kind(l) == "chan").map(|l| l.split(' ').nth(1).unwrap_or("").to_string()).collect();
+	for id in ids {
+		for (tlv, kind) in ROWS {
+			let b = elems(before, &id, kind, tlv);
+			if b.is_empty() { continue; }
+			let op = format!("sidevec {} {}", tlv, b.join(","));
+			if !ctx.once.insert(format!("op:{}", op)) { continue; }
+			let a = elems(after, &id, kind, tlv);
+			let carried = b.iter().filter(|e| !e.ends_with("=-")).count();
+			let dropped_in_front = b.iter().position(|e| e.starts_with("RemoteAnnounced=")).map(|p| b[p..].iter().any(|e| !e.ends_with("=-"))).unwrap_or(false);
+			let class = format!("sidevec:{}:{}{}", tlv, if carried == 0 { "no-value" } else if carried < b.len() { "mixed-some-none" } else { "all-some" }, if dropped_in_front { ":after-dropped" } else { "" });
+			ctx.rec.case(&op, &format!("ok {}", if a.is_empty() { "-".to_string() } else { a.join(",") }), &class, carried > 0);
+		}
+	}
+}
 /// one differential case per channel (each distinct op line once per run) + the role / fee-state invariant the theorems assume
 fn emit_forget(ctx: &mut Ctx, kind: &str, before: &[String], after: &[String], at: &str) {
+	if kind == "forget_disk" { emit_sidevecs(ctx, before, after); }
 	let (b, a) = (forget_texts(before), forget_texts(after));
 	for (id, (text, interesting, fee_wf)) in b.iter() {
 		if !*fee_wf { ctx.fail_once("forget:fee-wf", format!("{}: channel {} has a pending_update_fee whose state contradicts its role (a funder holds only Outbound fee updates, a fundee never does): {}", at, id, text)); }
